@@ -42,8 +42,9 @@ import re
 
 from psyclone import psyGen
 from psyclone.psyir.nodes import (
-    ACCKernelsDirective, ACCRoutineDirective, Assignment, Call, CodeBlock,
-    Loop, PSyDataNode, Reference, Return, Routine, Statement, WhileLoop)
+    ACCKernelsDirective, ACCParallelDirective, ACCRoutineDirective,
+    Assignment, Call, CodeBlock, Loop, PSyDataNode, Reference, Return,
+    Routine, Statement, WhileLoop)
 from psyclone.psyir.symbols import UnsupportedFortranType
 from psyclone.psyir.transformations.region_trans import RegionTrans
 from psyclone.psyir.transformations.transformation_error import (
@@ -135,6 +136,8 @@ class ACCKernelsTrans(RegionTrans):
             character variable within the region.
         :raises TransformationError: if the proposed region contains a call to
             a routine that is not available on the accelerator.
+        :raises TransformationError: if the nodes are already within, or
+            contain, an OpenACC parallel or kernels region.
         :raises TransformationError: if there are no Loops within the
             proposed region and options["disable_loop_check"] is not True.
 
@@ -151,6 +154,15 @@ class ACCKernelsTrans(RegionTrans):
                 "OpenACC kernels regions are not currently supported for "
                 "GOcean InvokeSchedules")
         super().validate(node_list, options)
+
+        # OpenACC compute constructs cannot be nested.
+        compute_dirs = (ACCParallelDirective, ACCKernelsDirective)
+        if node_list[0].ancestor(compute_dirs) or any(
+                node.walk(compute_dirs) for node in node_list):
+            raise TransformationError(
+                "Cannot enclose the supplied node(s) within an OpenACC "
+                "kernels region because they are already within, or "
+                "contain, an OpenACC compute region.")
 
         # The regex we use to determine whether a character declaration is
         # of assumed size ('LEN=*' or '*(*)').
